@@ -23,6 +23,7 @@ import (
 	"go/constant"
 	"go/importer"
 	"go/parser"
+	"go/printer"
 	"go/token"
 	"go/types"
 	"os"
@@ -926,6 +927,49 @@ func must(err error) {
 	}
 }
 
+// mentionShape lists, in source order, the printed form of every assignment / inc-dec statement and every
+// if-condition of recv.name that mentions the given text (e.g. "s.rto"): the arithmetic a model relies on.
+func (p *pkgInfo) mentionShape(recv, name, mention string) ([]string, error) {
+	fd := p.findFunc(recv, name)
+	if fd == nil {
+		return nil, fmt.Errorf("function %s.%s not found", recv, name)
+	}
+	pr := func(n ast.Node) string {
+		var b bytes.Buffer
+		printer.Fprint(&b, p.fset, n)
+		return strings.Join(strings.Fields(b.String()), " ")
+	}
+	var out []string
+	ast.Inspect(fd.Body, func(n ast.Node) bool {
+		switch n := n.(type) {
+		case *ast.AssignStmt:
+			if t := pr(n); strings.Contains(t, mention) {
+				out = append(out, t)
+			}
+		case *ast.IncDecStmt:
+			if t := pr(n); strings.Contains(t, mention) {
+				out = append(out, t)
+			}
+		case *ast.ExprStmt:
+			if t := pr(n); strings.Contains(t, mention) {
+				out = append(out, t)
+			}
+		case *ast.IfStmt:
+			if t := pr(n.Cond); strings.Contains(t, mention) {
+				out = append(out, "if "+t)
+			}
+		case *ast.ForStmt:
+			if n.Cond != nil {
+				if t := pr(n.Cond); strings.Contains(t, mention) {
+					out = append(out, "for "+t)
+				}
+			}
+		}
+		return true
+	})
+	return out, nil
+}
+
 func leanStrList(name string, l []string) string {
 	var b strings.Builder
 	fmt.Fprintf(&b, "def %s : List String := [", name)
@@ -1050,6 +1094,15 @@ func main() {
 				fmt.Fprintf(&b, "def %s : Nat := %s\n", leanIdent(n), v)
 			}
 		}
+		// transport/tcp: congestion / recovery / timer constants (prefixed: the names are package-local)
+		{
+			p := load("protocol/transport/tcp")
+			for _, n := range []string{"InitialCwnd", "nDupAckThreshold", "minRTO", "maxSegmentsPerWake", "flagFin", "flagSyn", "flagRst", "flagPsh", "flagAck", "maxOptionSize", "maxTSDiff", "tsLen", "tsMask", "tsOffset", "hashMask"} {
+				v, err := p.constVal(n)
+				must(err)
+				fmt.Fprintf(&b, "def tcp_%s : Nat := %s\n", leanIdent(n), v)
+			}
+		}
 		b.WriteString("\nend Gen.Consts\n")
 		write("Consts", b.String())
 	}
@@ -1079,6 +1132,25 @@ func main() {
 			fmt.Fprintf(&b, "def ipv4_echoRequests_cap : Nat := %s\n", v)
 		} else {
 			must(fmt.Errorf("ipv4: capacity of the echoRequests channel not found"))
+		}
+		// transport/tcp: the statements the timing-free model abstracts (retransmission timeout arithmetic,
+		// congestion window updates, the send gate)
+		tcpp := load("protocol/transport/tcp")
+		for _, sp := range []struct{ lean, recv, fn, mention string }{
+			{"tcp_rto_expired", "sender", "retransmitTimerExpired", "s.rto"},
+			{"tcp_rto_update", "sender", "updateRTO", "s.rto"},
+			{"tcp_rtt_sample", "sender", "handleRcvdSegment", "rttMeasure"},
+			{"tcp_send_gate", "sender", "sendData", "s.outstanding"},
+			{"tcp_cwnd_dupack", "sender", "checkDuplicateAck", "dupAckCount"},
+			{"tcp_cwnd_ss", "renoState", "updateSlowStart", "newcwnd"},
+			{"tcp_cwnd_ca", "renoState", "updateCongestionAvoidance", "snd"},
+			{"tcp_cwnd_rto", "renoState", "HandleRTOExpired", "sndCwnd"},
+			{"tcp_ssthresh", "renoState", "reduceSlowStartThreshold", "sndSsthresh"},
+			{"tcp_trim_ack", "sender", "handleRcvdSegment", "ackLeft"},
+		} {
+			sh, err := tcpp.mentionShape(sp.recv, sp.fn, sp.mention)
+			must(err)
+			b.WriteString(leanStrList(sp.lean, sh))
 		}
 		b.WriteString("\nend Gen.Shapes\n")
 		write("Shapes", b.String())
